@@ -89,6 +89,12 @@ class Ctx(object):
     def pick(self, quick, thorough):
         return thorough if self.tier == 'thorough' else quick
 
+    def per_shard(self, quick, thorough):
+        """a case count given for one of 16 shards: with fewer shards each takes a larger share, so that
+        the workload as a whole does not shrink with the number of cores (time budgets still cap it)"""
+        n = thorough if self.tier == 'thorough' else quick
+        return max(1, (n * 16 + self.nshards - 1) // self.nshards)
+
     def time_left(self):
         return self.budget_s - (time.monotonic() - self.t0)
 
